@@ -191,6 +191,61 @@ class CaseTimeout(BaseException):
 
 
 CASE_LIMIT = float(os.environ.get('PV_CASE_LIMIT', '300'))
+_HEARTBEAT = None   # in a shard process: shared [start time of the current case, its limit] read by the parent
+
+
+def _job_main(fn, job, conn, hb):
+    global _HEARTBEAT
+    _HEARTBEAT = hb
+    try:
+        conn.send(fn(job))
+    finally:
+        conn.close()
+
+
+def _run_jobs(ctx, fn, jobs, nproc, prop_id, part_name):
+    """one process per shard, at most nproc at a time.  The per-case alarm cannot interrupt a call that stays inside C code (a
+    regular expression that backtracks without end): a shard whose current case is three limits (+30 s) old is killed by the
+    parent and counted as a case without a result; what the shard had collected is lost with it"""
+    results, pending, active = [], list(enumerate(jobs)), {}
+    while pending or active:
+        while pending and len(active) < nproc:
+            idx, job = pending.pop(0)
+            rd, wr = ctx.Pipe(duplex=False)
+            hb = ctx.Array('d', [time.time(), CASE_LIMIT], lock=False)
+            p = ctx.Process(target=_job_main, args=(fn, job, wr, hb))
+            p.start()
+            wr.close()
+            active[idx] = (p, rd, hb)
+        for idx in list(active):
+            p, rd, hb = active[idx]
+            if rd.poll(0.02):
+                try:
+                    results.append(rd.recv())
+                except EOFError:
+                    col = Collected()
+                    col.harness_errors.append(f'{prop_id}/{part_name} shard {idx}: worker ended without a result')
+                    results.append(col)
+                p.join()
+                del active[idx]
+            elif not p.is_alive():
+                col = Collected()
+                col.harness_errors.append(f'{prop_id}/{part_name} shard {idx}: worker died (exit code {p.exitcode})')
+                results.append(col)
+                del active[idx]
+            elif time.time() - hb[0] > 3 * hb[1] + 30:
+                p.kill()
+                p.join()
+                col = Collected()
+                r = Result()
+                r.fail('every call on an input of the domain returns or raises',
+                       f'{prop_id}/{part_name}{TIMEOUT_MARK}call-that-cannot-be-interrupted', limit_s=hb[1], shard=idx,
+                       note='the shard was killed by the runner; the case is not known to the parent')
+                col.add(None, r)
+                results.append(col)
+                del active[idx]
+        time.sleep(0.05)
+    return results
 
 
 def _on_alarm(signum, frame):
@@ -206,6 +261,9 @@ def safe_check(part: Part, case, prop_id: str) -> Result:
     harness error."""
     armed = False
     limit = min(CASE_LIMIT, part.case_limit) if part.case_limit else CASE_LIMIT
+    if _HEARTBEAT is not None:
+        _HEARTBEAT[0] = time.time()   # start of this case
+        _HEARTBEAT[1] = limit
     try:
         if threading.current_thread() is threading.main_thread():
             signal.signal(signal.SIGALRM, _on_alarm)
@@ -424,8 +482,7 @@ def run_check(prop_id: str, tier: str, seed: int) -> int:
             if nsh == 1:
                 results = [fn(jobs[0])]
             else:
-                with ctx.Pool(min(NPROC, nsh)) as pool:
-                    results = pool.map(fn, jobs, chunksize=1)
+                results = _run_jobs(ctx, fn, jobs, min(NPROC, nsh), prop_id, part.name)
             for r in results:
                 col.merge(r)
         per_part[part.name] = {
